@@ -237,7 +237,9 @@ Definition on_acknack (cf : cfg) (now : Z) (chs : list change) (p : rproxy) (bas
     (p2, out, true)
   else (p, [], false).
 
-(* on_nack_frag_submessage_received: the requested 1-based number is used as a 0-based index *)
+(* on_nack_frag_submessage_received: the base once, then the other members of the set; a requested
+   1-based number n in 1..=number_of_fragments is answered with fragment index n-1, i.e. the
+   DATA_FRAG whose fragment_starting_num is n *)
 Definition on_nackfrag (cf : cfg) (chs : list change) (p : rproxy) (sn base : Z) (set : list Z) (count : Z)
   : rproxy * list dgram :=
   if rp_rel p && (rp_nf p <? count) then
@@ -245,7 +247,8 @@ Definition on_nackfrag (cf : cfg) (chs : list change) (p : rproxy) (sn base : Z)
                    (rp_hbc p) (rp_hbt p) in
     match find_change sn chs with
     | Some c =>
-      (p1, flat_map (fun f => if f <? nfrags cf c then [toR [SFrag c (f + 1)]] else []) (base :: set))
+      (p1, flat_map (fun f => if (1 <=? f) && (f <=? nfrags cf c) then [toR [SFrag c f]] else [])
+                    (base :: filter (fun n => negb (n =? base)) set))
     | None => (p1, [toR [SGap sn (sn + 1)]])
     end
   else (p, []).
@@ -265,7 +268,7 @@ Record wproxy : Type := mkWP {
   wp_hr : Z;                     (* highest_received_change_sn *)
   wp_hb : Z;                     (* last_received_heartbeat_count *)
   wp_an : Z;                     (* acknack_count *)
-  wp_nf : Z;                     (* nack_frag_count (never incremented by the code) *)
+  wp_nf : Z;                     (* nack_frag_count *)
   wp_frags : list (change * Z)   (* frag_buffer: (change the fragment was cut from, fragment_starting_num) *)
 }.
 
@@ -274,8 +277,9 @@ Definition avail_max (w : wproxy) : Z := Z.max (wp_fa w - 1) (wp_hr w).
 Definition missing (w : wproxy) : list Z :=
   zrange (Z.max (wp_fa w) (wp_hr w + 1)) (Z.max (wp_la w) (wp_hr w)).
 
-Definition frag_eqb (a b : change * Z) : bool := change_eqb (fst a) (fst b) && (snd a =? snd b).
 Definition frag_sn (f : change * Z) : Z := c_sn (fst f).
+(* push_data_frag identifies a fragment by (writer_sn, fragment_starting_num) *)
+Definition frag_eqb (a b : change * Z) : bool := (frag_sn a =? frag_sn b) && (snd a =? snd b).
 
 (* received_change_set *)
 Definition received_set (w : wproxy) (sn : Z) : wproxy :=
@@ -335,7 +339,8 @@ Definition on_gap (w : wproxy) (start base : Z) : wproxy :=
 (* RtpsWriterProxy::write_message after must_send_acknacks was set: ACKNACK (+ NACK_FRAG) *)
 Definition min_frag_sn (w : wproxy) : option Z := zmin_list (map frag_sn (wp_frags w)).
 Definition acknack_of (cf : cfg) (w : wproxy) : wproxy * list submsg :=
-  let w1 := mkWP (wp_fa w) (wp_la w) (wp_hr w) (wp_hb w) (wp_an w + 1) (wp_nf w) (wp_frags w) in
+  (* acknack_count and nack_frag_count both get a fresh value for every reply *)
+  let w1 := mkWP (wp_fa w) (wp_la w) (wp_hr w) (wp_hb w) (wp_an w + 1) (wp_nf w + 1) (wp_frags w) in
   let miss := firstn 256 (missing w1) in
   let set := take_while (fun x => match min_frag_sn w1 with Some m => x <? m | None => true end) miss in
   let ack := SAck (avail_max w1 + 1) set (wp_an w1) in
@@ -346,10 +351,9 @@ Definition acknack_of (cf : cfg) (w : wproxy) : wproxy * list submsg :=
       let total := div_ceil (c_len (fst f0)) (fsz cf) in
       let miss_fr := filter (fun k => negb (existsb (fun f => (frag_sn f =? s) && (snd f =? k)) (wp_frags w1)))
                             (zrange 1 total) in
-      match miss_fr with
-      | b :: _ => (w1, [ack; SNack s b miss_fr (wp_nf w1)])
-      | [] => (w1, [ack])    (* `expect("At least a fragment must be missing")`: unreachable, see RelProofs *)
-      end
+      (* base = first missing fragment number (1 if none is missing); at most 256 numbers from the base *)
+      let base := match miss_fr with b :: _ => b | [] => 1 end in
+      (w1, [ack; SNack s base (take_while (fun k => k - base <? 256) miss_fr) (wp_nf w1)])
     | None => (w1, [ack])
     end
   | None => (w1, [ack])
@@ -667,3 +671,22 @@ Definition strictly_increasing (l : list change) : Prop := StronglySorted Z.lt (
 
 (* presented list of the reader (ghost), [] if there is no reader *)
 Definition presented (s : state) : list change := match s_rd s with Some r => rd_pres r | None => [] end.
+
+(* the RELIABLE matched reader (if it still exists) has been given every change the writer still holds
+   and that is relevant for it (sequence number above the proxy's first relevant sample) *)
+Definition delivered (s : state) : Prop :=
+  forall p r w, s_rp s = Some p -> rp_rel p = true -> s_rd s = Some r -> rd_wp r = Some w ->
+    forall c, In c (s_changes s) -> rp_fr p < c_sn c -> In c (rd_pres r).
+
+(* the test wait_for_acknowledgments performs (immediately, and again whenever an ACKNACK is accepted) *)
+Definition ackd (s : state) : bool := is_acked (s_rp s) (s_last s).
+(* callers of wait_for_acknowledgments that are still parked *)
+Definition npend (s : state) : nat :=
+  length (filter (fun w => match w with WPending => true | _ => false end) (s_waits s)).
+
+(* healing rounds granted to a schedule: two, plus two per write (a fragmented sample needs a round of
+   its own for ACKNACK -> fragment 1 and one for NACK_FRAG -> the other fragments) *)
+Definition rounds_needed (l : list action) : nat :=
+  2 + 2 * length (filter (fun a => match a with AWrite _ _ _ => true | _ => false end) l).
+
+Definition not_remove (a : action) : bool := match a with ARemove _ => false | _ => true end.
